@@ -203,6 +203,10 @@ def run_c19(ctx):
         # direction B on this universe
         record_and_judge(ctx, up, "record", ["-n", "60" if quick else "600", "-len", "14" if quick else "24"],
                          "record-%s" % pool)
+    # the exactly-once guarantees (one message per publish, one clean-up per removal) with a second caller between the two
+    # phases of a publish: every block interleaving of two callers with one operation each, replayed through the gate scheduler
+    vecs2, uni2 = model_and_vectors(ctx, [1, 2], 1, "MCPoolA", "MCInitSome", evids='{"e1"}', timeout=3000)
+    replay(ctx, vecs2, uni2, "sched-replay-MCPoolA-2x1")
     if not quick:
         negative_controls(ctx, up, vecs)
     ctx.exhaustive = True
